@@ -96,3 +96,75 @@ def run_block_fields(ck, F, rule="C08.footer-block-fields-checked"):
                    "panic" % fn["id"], b.loc(bad))
         else:
             ck.ok(rule, key, "block fields are converted fallibly or only cast")
+
+
+# ---------------------------------------------------------------------------------------------------------
+# `slice.len() - K` on a byte slice that is a parameter (input handed in by the caller) underflows for short input.
+DECODER_CRATES2 = ["arrow_avro", "arrow_ipc", "parquet", "parquet_variant", "arrow_csv", "arrow_json"]
+
+
+def _len_receiver(b, l, depth=0):
+    ds = b.defs().get(l, [])
+    if len(ds) != 1 or depth > 4:
+        return None
+    d = ds[0]
+    if d[0] == "call" and re.search(r"::len$", callee(d[3]) or "") and d[3]["args"]:
+        return op_local(d[3]["args"][0])
+    if d[0] == "s" and d[3][0] in ("use", "cast"):
+        o = d[3][1] if d[3][0] == "use" else d[3][2]
+        l2 = op_local(o)
+        if l2 is not None:
+            return _len_receiver(b, l2, depth + 1)
+    return None
+
+
+def _param_byte_slice(b, l, depth=0):
+    if 1 <= l <= b.argc:
+        return bool(re.match(r"^&(mut )?\[u8\]$", b.locals[l]))
+    if depth > 5:
+        return False
+    for d in b.defs().get(l, []):
+        if d[0] == "s" and d[3][0] == "ref" and all(e == "*" for e in d[3][2][1]):
+            return _param_byte_slice(b, d[3][2][0], depth + 1)
+        if d[0] == "s" and d[3][0] == "use":
+            p = op_place(d[3][1])
+            if p and all(e == "*" for e in p[1]):
+                return _param_byte_slice(b, p[0], depth + 1)
+    return False
+
+
+def run_len_minus(ck, F, rule="C08.slice-len-minus-const-guarded"):
+    ck.rule(rule, "in the decoders, `input.len() - K` on a `&[u8]` parameter is dominated by a comparison of that length (or by is_empty / split_last / checked_sub / "
+            "get): for input shorter than K the subtraction underflows and the reader panics", floor=3)
+    for cn in DECODER_CRATES2:
+        for fn in F.crate(cn).fns:
+            if "mir" not in fn:
+                continue
+            b = Body(fn)
+            for bl in range(b.n):
+                for s in b.stmts(bl):
+                    if not (s[0] == "a" and s[2][0] == "bin" and s[2][1] in ("Sub", "SubWithOverflow", "SubUnchecked")):
+                        continue
+                    k, l = op_const(s[2][3]), op_local(s[2][2])
+                    if k is None or l is None:
+                        continue
+                    rl = _len_receiver(b, l)
+                    if rl is None or not _param_byte_slice(b, rl):
+                        continue
+                    guarded = False
+                    for x in b.dominators().get(bl, set()):
+                        for s2 in b.stmts(x):
+                            if s2[0] == "a" and s2[2][0] == "bin" and s2[2][1] in ("Lt", "Le", "Gt", "Ge", "Eq", "Ne"):
+                                for o in (s2[2][2], s2[2][3]):
+                                    l2 = op_local(o)
+                                    if l2 is not None and _len_receiver(b, l2) is not None:
+                                        guarded = True
+                        t = b.term(x)
+                        if t["k"] == "call" and re.search(r"::(is_empty|split_last|strip_suffix|checked_sub|get|split_at_checked)$", callee(t) or ""):
+                            guarded = True
+                    key = "%s - %s" % (flow.norm(fn["id"]), str(k[0] if isinstance(k, (list, tuple)) else k))
+                    if guarded:
+                        ck.ok(rule, key, "length is compared first")
+                    else:
+                        ck.bad(rule, key, "%s subtracts %s from the length of its `&[u8]` input without comparing the length first: shorter input underflows (debug: panic; "
+                               "release: wraps and the following slice index panics)" % (fn["id"], str(k[0] if isinstance(k, (list, tuple)) else k)), b.loc(bl))
